@@ -1011,6 +1011,7 @@ pub fn schedule(prop: Prop, tier: Tier) -> Vec<(&'static str, u64)> {
             ("all4", if q { 0 } else { 65_536 }),
             ("er", if q { 6_000 } else { 80_000 }),
             ("union", if q { 4_000 } else { 50_000 }),
+            ("layered", if q { 1_500 } else { 20_000 }),
             ("lattice", if q { 2_000 } else { 25_000 }),
             ("dense", if q { 1_200 } else { 15_000 }),
             ("dup", if q { 1_200 } else { 15_000 }),
@@ -1025,6 +1026,7 @@ pub fn schedule(prop: Prop, tier: Tier) -> Vec<(&'static str, u64)> {
             ("all4", if q { 0 } else { 65_536 }),
             ("er", if q { 3_000 } else { 60_000 }),
             ("union", if q { 2_000 } else { 40_000 }),
+            ("layered", if q { 800 } else { 15_000 }),
             ("lattice", if q { 1_200 } else { 20_000 }),
             ("dense", if q { 600 } else { 10_000 }),
             ("dup", if q { 600 } else { 10_000 }),
@@ -1038,6 +1040,7 @@ pub fn schedule(prop: Prop, tier: Tier) -> Vec<(&'static str, u64)> {
             ("all4", if q { 0 } else { 20_000 }),
             ("er", if q { 1_200 } else { 30_000 }),
             ("union", if q { 3_000 } else { 60_000 }),
+            ("layered", if q { 1_500 } else { 30_000 }),
             ("lattice", if q { 800 } else { 15_000 }),
             ("dense", if q { 400 } else { 8_000 }),
             ("dup", if q { 400 } else { 8_000 }),
@@ -1049,6 +1052,7 @@ pub fn schedule(prop: Prop, tier: Tier) -> Vec<(&'static str, u64)> {
             ("all3", 512),
             ("er-small", if q { 1_600 } else { 30_000 }),
             ("union", if q { 2_000 } else { 40_000 }),
+            ("layered", if q { 500 } else { 10_000 }),
             ("lattice", if q { 600 } else { 12_000 }),
             ("dup", if q { 240 } else { 5_000 }),
         ],
